@@ -210,6 +210,29 @@ def run(R):
     # ---- ESCAPE
     common.escape_rule(R, ro, "C02.ESCAPE", ("step", "provider", "flush"), "delivered at the awaiting task's yield")
     inline_fail(R, ro, hier, "C02.ESCAPE")
+    # the exception object is stored as it is: completing a future does not stamp, wrap or otherwise touch it (the traceback
+    # bookkeeping belongs to the task that catches the error, inside its except block, where sys.exc_info() is that error)
+    se = ro.FutureBase.methods.get("set_error")
+    R.need(se is not None, "anchor vanished: FutureBase.set_error")
+    ep_ = q.param_names(se.node)[1]
+    touched = []
+    for x in q.scope_nodes(se.node):
+        if isinstance(x, ast.Call) and any(isinstance(a, ast.Name) and a.id == ep_ for a in list(x.args) + [k.value for k in x.keywords]):
+            touched.append(q.src(x)[:60])
+        if isinstance(x, ast.Attribute) and isinstance(x.ctx, (ast.Store, ast.Del)) and q.src(x.value) == ep_:
+            touched.append(q.src(x)[:60])
+    stores = [x for x in q.scope_nodes(se.node) if isinstance(x, ast.Assign) and q.src(x.value) == ep_ and any(q.src(t).startswith("self.") for t in x.targets)]
+    R.check(not touched and len(stores) == 1, "C02.FLOW-THROW", se.qualname + ":unchanged", R.site(se),
+            "set_error stores the exception object and does nothing else with it",
+            "set_error touches the exception object (%s): stamping it outside the except block of that very exception records the wrong (or no) "
+            "type/traceback, and the next task level throws something else into its parent" % "; ".join(touched))
+    # collecting the futures of a yielded value never fails: what is not a future is reported by unwrap(), at the yield
+    ef = R.repo.fn("async_task.extract_futures")
+    raises_ = [x for x in q.scope_nodes(ef.node) if isinstance(x, (ast.Raise, ast.Assert))]
+    R.check(not raises_, "C02.THROW-SOURCE", ef.qualname + ":silent", R.site(ef),
+            "extract_futures skips what is not a future (unwrap reports it to the task at its yield)",
+            "extract_futures raises for a yielded object that is not a future: the TypeError completes the task directly instead of being thrown in at the "
+            "yield (a try/except around the yield no longer catches it, and the futures yielded alongside are never awaited)")
     n_slots = common.exception_slot_types(R, "C02.ERR-TYPE", ("futures.FutureBase", "async_task.AsyncTask", "batching.BatchBase", "batching.BatchItemBase"))
     R.need(n_slots >= 6, "fewer exception-carrying slots in the .pxd files than confirmed by hand (%d < 6)" % n_slots)
     capture_guard(R, ro, "C02.CAPTURE-GUARD")
@@ -257,6 +280,28 @@ def batch_err(R, ro, rule, hier):
             R.check(ok and p2 is None, rule, "%s:stores" % bc.qualname, R.site(bc, h),
                     "the caught flush error is stored on the batch (set_error with the same object) unless the batch is already computed",
                     "a flush error can be dropped, or is stored without checking that the batch is not computed yet")
+    # every completion of the batch inside _compute is protected against "already completed" (the flush body may have completed
+    # the batch itself, e.g. through the public cancel()): it sits in the try whose BaseException handler tests is_computed(),
+    # or is itself guarded by that test - FutureIsAlreadyComputed must not escape from a flush
+    cfg_ = cfg_of(bc)
+
+    def unc_(nd):
+        if nd.kind != "test":
+            return None
+        k, s, pos = q.atom_test(nd.ast)
+        if k == "call" and s in ("self.is_computed", "self.is_flushed"):
+            return "F" if pos else "T"
+        return None
+    for nn, cc in kit.call_sites(bc, lambda x: q.call_name(x) in ("self.set_value", "self.set_error")):
+        in_try_body = False
+        for t in kit.enclosing_try_handlers(cc):
+            if any(cc is sub for st in t.body for sub in ast.walk(st)) and any(kit.handler_covers(h, "BaseException", hier) for h in t.handlers):
+                in_try_body = True
+        guarded = kit.path_avoiding_guard(cfg_, [nn], unc_, N, dead_ok=True) is None
+        R.check(in_try_body or guarded, rule, "%s:protected:%s" % (bc.qualname, q.stmt_key(cc)[:30]), R.site(bc, cc),
+                "%s is protected against a batch that the flush body already completed" % q.src(cc)[:30],
+                "%s runs outside the guarded block and without an is_computed() test: when the flush body completed the batch itself "
+                "(cancel() after a backend failure), FutureIsAlreadyComputed escapes from flush() through the scheduler" % q.src(cc)[:30])
     # items receive the batch's own error instance
     comp = bb.methods.get("_computed")
     R.need(comp is not None, "anchor vanished: BatchBase._computed")
@@ -284,7 +329,7 @@ def batch_err(R, ro, rule, hier):
             return -1 if pos_ else 1
         return 0
     n_own = 0
-    for lp in [n for n in ast.walk(comp.node) if isinstance(n, ast.For) and q.dotted(n.iter) == "self.items"]:
+    for lp in [n for n in ast.walk(comp.node) if isinstance(n, ast.For) and common.iterates_items(comp.node, n.iter)]:
         for c in q.calls(lp):
             if q.attr_call(c)[1] != "set_error" or not c.args:
                 continue
@@ -322,7 +367,7 @@ def batch_err(R, ro, rule, hier):
     cfg = cfg_of(comp)
     base = kit.call_sites(comp, lambda c: q.attr_call(c)[1] == "_computed" and q.dotted(q.attr_call(c)[0]) in ("futures.FutureBase", "FutureBase", "super()"))
     base += [(n, c) for n, c in kit.call_sites(comp, lambda c: q.attr_call(c)[1] == "_computed" and isinstance(q.attr_call(c)[0], ast.Call))]
-    loops = [cfg.nodes_for(n)[0] for n in ast.walk(comp.node) if isinstance(n, ast.For) and q.dotted(n.iter) == "self.items"]
+    loops = [cfg.nodes_for(n)[0] for n in ast.walk(comp.node) if isinstance(n, ast.For) and common.iterates_items(comp.node, n.iter)]
     R.need(base, "idiom: BatchBase._computed no longer notifies through FutureBase._computed")
     p = cfg.find_path([cfg.entry], [n for n, c in base], N, cut_nodes=loops)
     R.check(p is None, rule + ".ITEMS-FIRST", comp.qualname, R.site(comp),
